@@ -31,6 +31,7 @@ type Engine struct {
 	// theories: contracts for functions outside the repo (assumed)
 	ext map[string]*Contract
 	ghosts map[string]*GhostDecl
+	pkgSpecs map[string]map[string]*SpecFunc
 	readonly map[string]*ReadonlyGlobal
 	// counters
 	warnings []string
